@@ -111,7 +111,7 @@ PROPS["C05"] = {
             "Non-trivial = the probes saw a drop, delay, retransmission or out-of-order arrival, or a socket was reused; distinct = distinct (descriptor, observed event counts).",
     "jobs": [
         {"name": "patterns", "engine": "tcp", "mode": "patterns", "args": {"mixes": T(2, 6)}},
-        {"name": "random", "engine": "tcp", "mode": "random", "args": {"n": T(1500, 60000)}},
+        {"name": "random", "engine": "tcp", "mode": "random", "args": {"n": T(1500, 40000)}},
     ],
     "require": {"quick": {"bytes_verified": 50000000, "cases_with_retransmission": 1000, "cases_with_out_of_order_arrival": 500,
                           "socket_reuses": 500, "reuse_with_unread_data_left": 50, "streams_reaching_eof": 300},
@@ -191,7 +191,7 @@ PROPS["C20"] = {
             "datagram sizes at MTU-1/MTU/MTU+1/2*MTU and the don't-fragment option set, cleared or never touched. Non-trivial = payload flowed from the accepted side as well / a datagram was delivered; "
             "distinct = distinct descriptors.",
     "jobs": [{"name": "tcp", "engine": "tcp", "args": {"n": T(1000, 20000)}},
-             {"name": "udp", "engine": "udp", "args": {"n": T(1500, 60000)}}],
+             {"name": "udp", "engine": "udp", "args": {"n": T(1500, 40000)}}],
     "require": {"quick": {"cases_with_accepted_side_payload": 900, "tcp_segments_of_exactly_mtu": 100000, "df_oversize_datagrams": 3000,
                           "oversize_datagrams_delivered_whole": 3000},
                 "thorough": {"tcp_segments_on_wire": 20000000}},
